@@ -1,0 +1,24 @@
+//go:build verif
+
+package dns
+
+import "net"
+
+// Add-only hooks for the C13 check (server start / shutdown); read-only views
+// of the server's connection tracking. They do not change behaviour.
+
+// VerifTracksConn reports whether srv.conns (the connections Shutdown will
+// unblock) currently holds c.
+func (srv *Server) VerifTracksConn(c net.Conn) bool {
+	srv.lock.RLock()
+	defer srv.lock.RUnlock()
+	_, ok := srv.conns[c]
+	return ok
+}
+
+// VerifTrackedConns is the number of connections in srv.conns.
+func (srv *Server) VerifTrackedConns() int {
+	srv.lock.RLock()
+	defer srv.lock.RUnlock()
+	return len(srv.conns)
+}
